@@ -13,7 +13,9 @@ use verif_harness::Rng;
 // ---- counting allocator: watches one address -------------------------------------------------
 struct Watch;
 static WATCH: AtomicUsize = AtomicUsize::new(0);
+static WATCH_SIZE: AtomicUsize = AtomicUsize::new(0);
 static FREED: AtomicBool = AtomicBool::new(false);
+static BADFREE: AtomicBool = AtomicBool::new(false);
 unsafe impl GlobalAlloc for Watch {
     unsafe fn alloc(&self, l: Layout) -> *mut u8 {
         System.alloc(l)
@@ -21,6 +23,9 @@ unsafe impl GlobalAlloc for Watch {
     unsafe fn dealloc(&self, p: *mut u8, l: Layout) {
         if p as usize == WATCH.load(Ordering::SeqCst) && p as usize != 0 {
             FREED.store(true, Ordering::SeqCst);
+            // the block must be given back with the layout it was allocated with (GlobalAlloc contract)
+            if l.size() != WATCH_SIZE.load(Ordering::SeqCst) { BADFREE.store(true, Ordering::SeqCst); }
+            WATCH.store(0, Ordering::SeqCst);   // one shot: the address may be handed out again right away
         }
         System.dealloc(p, l)
     }
@@ -109,8 +114,10 @@ fn run_script<T: Elem, U: Elem>(n: usize, script: &[String]) -> String {
     let ptr = v.as_ptr() as usize;
     let cap = v.capacity();
     let has_alloc = std::mem::size_of::<T>() != 0 && cap != 0;
+    WATCH_SIZE.store(cap * std::mem::size_of::<T>(), Ordering::SeqCst);
     WATCH.store(if has_alloc { ptr } else { 0 }, Ordering::SeqCst);
     FREED.store(false, Ordering::SeqCst);
+    BADFREE.store(false, Ordering::SeqCst);
     let res = std::panic::catch_unwind(std::panic::AssertUnwindSafe(|| {
         try_convert_vec_in_place::<T, U, _, ErrVal>(v, |t: T, prev: Option<&mut U>| {
             let (k, code) = L.with(|l| {
@@ -138,7 +145,7 @@ fn run_script<T: Elem, U: Elem>(n: usize, script: &[String]) -> String {
         })
     }));
     let freed = FREED.load(Ordering::SeqCst);
-    WATCH.store(0, Ordering::SeqCst);
+    let badfree = BADFREE.load(Ordering::SeqCst);
     let sorted = |mut v: Vec<String>| { v.sort(); v.join(",") };
     let conv_drops = |l: &Ledger| {
         let mut out = vec![];
@@ -159,19 +166,24 @@ fn run_script<T: Elem, U: Elem>(n: usize, script: &[String]) -> String {
             // the function itself must not have dropped anything
             let fnd = L.with(|l| l.borrow().fn_drops.clone());
             drop(out);
+            let bad_on_drop = BADFREE.load(Ordering::SeqCst);
+            WATCH.store(0, Ordering::SeqCst);
+            let s = if bad_on_drop { s.replace("alloc=same", "alloc=released-with-another-layout") } else { s };
             if !fnd.is_empty() { format!("{} fn-dropped={}", s, sorted(fnd)) } else { s }
         }
         Ok(Err(e)) => L.with(|l| {
             let l = l.borrow();
-            format!("failed why=e{} fndrops={} leaked= calls={} convdrops={} alloc={}", e.0, sorted(l.fn_drops.clone()), l.calls.join("|"), conv_drops(&l), if !has_alloc { "freed" } else if freed { "freed" } else { "leaked" })
+            WATCH.store(0, Ordering::SeqCst);
+            format!("failed why=e{} fndrops={} leaked= calls={} convdrops={} alloc={}", e.0, sorted(l.fn_drops.clone()), l.calls.join("|"), conv_drops(&l), if !has_alloc { "freed" } else if badfree { "released-with-another-layout" } else if freed { "freed" } else { "leaked" })
         }),
         Err(p) => L.with(|l| {
+            WATCH.store(0, Ordering::SeqCst);
             let l = l.borrow();
             if l.call == 0 && p.downcast_ref::<String>().map(|s| s.contains("size_of") || s.contains("align_of")).unwrap_or(false) {
                 return format!("refused fndrops={} calls=", sorted(l.fn_drops.clone()));
             }
             let why = if let Some(x) = p.downcast_ref::<Payload>() { format!("p{}", x.0) } else if let Some(s) = p.downcast_ref::<String>() { format!("p?{}", s.replace(' ', "_")) } else { "p??".to_string() };
-            format!("failed why={} fndrops={} leaked= calls={} convdrops={} alloc={}", why, sorted(l.fn_drops.clone()), l.calls.join("|"), conv_drops(&l), if !has_alloc { "freed" } else if freed { "freed" } else { "leaked" })
+            format!("failed why={} fndrops={} leaked= calls={} convdrops={} alloc={}", why, sorted(l.fn_drops.clone()), l.calls.join("|"), conv_drops(&l), if !has_alloc { "freed" } else if badfree { "released-with-another-layout" } else if freed { "freed" } else { "leaked" })
         }),
     }
 }
@@ -187,8 +199,8 @@ fn run_zst(n: usize, script: &[String]) -> (String, String) {
     L.with(|l| { *l.borrow_mut() = Ledger { script: script.to_vec(), ..Default::default() }; });
     let v: Vec<TZ> = (0..n).map(|_| TZ).collect();
     let res = std::panic::catch_unwind(std::panic::AssertUnwindSafe(|| {
-        try_convert_vec_in_place::<TZ, UZ, _, ErrVal>(v, |t: TZ, _prev: Option<&mut UZ>| {
-            let (k, code) = L.with(|l| { let mut l = l.borrow_mut(); let k = l.call; l.call += 1; (k, l.script.get(k).cloned().unwrap_or("c".into())) });
+        try_convert_vec_in_place::<TZ, UZ, _, ErrVal>(v, |t: TZ, prev: Option<&mut UZ>| {
+            let (k, code) = L.with(|l| { let mut l = l.borrow_mut(); let k = l.call; l.call += 1; l.calls.push(if prev.is_some() { "s".into() } else { "n".into() }); (k, l.script.get(k).cloned().unwrap_or("c".into())) });
             drop(t);
             match code.as_str() {
                 "c" | "t" | "r" => Ok(VecElementConversionResult::Converted(UZ)),
@@ -199,16 +211,18 @@ fn run_zst(n: usize, script: &[String]) -> (String, String) {
         })
     }));
     let (kind, len) = match res { Ok(Ok(out)) => { let l = out.len(); drop(out); ("done", l) } Ok(Err(_)) => ("err", 0), Err(_) => ("panic", 0) };
-    let (td, ud, calls) = L.with(|l| { let l = l.borrow(); (l.zst_t_drops, l.zst_u_drops, l.call) });
-    // prediction straight from the script (the Lean model is exercised by the id-carrying pairs)
-    let mut produced = 0; let mut pk = "done"; let mut pcalls = 0;
+    let (td, ud, calls, prevs) = L.with(|l| { let l = l.borrow(); (l.zst_t_drops, l.zst_u_drops, l.call, l.calls.join("")) });
+    // prediction straight from the script (the Lean model is exercised by the id-carrying pairs); the converter is handed the most
+    // recent output (`s`) as soon as one exists, nothing (`n`) before
+    let mut produced = 0; let mut pk = "done"; let mut pcalls = 0; let mut pprevs = String::new();
     for (k, c) in script.iter().enumerate().take(n) {
         pcalls = k + 1;
+        pprevs.push(if produced > 0 { 's' } else { 'n' });
         match c.as_str() { "c" | "t" | "r" => produced += 1, "a" => {}, "e" => { pk = "err"; break; } _ => { pk = "panic"; break; } }
     }
     if n == 0 { pcalls = 0; }
     let plen = if pk == "done" { produced } else { 0 };
-    (format!("{} len={} tdrops={} udrops={} calls={}", kind, len, td, ud, calls), format!("{} len={} tdrops={} udrops={} calls={}", pk, plen, n, produced, pcalls))
+    (format!("{} len={} tdrops={} udrops={} calls={} prev={}", kind, len, td, ud, calls, prevs), format!("{} len={} tdrops={} udrops={} calls={} prev={}", pk, plen, n, produced, pcalls, pprevs))
 }
 
 // ---- element types without drop glue on the input side (a cleanup gated on `needs_drop::<T>()` would leak the outputs) ----
